@@ -113,6 +113,7 @@ def gen_history(rng, maxlen, minlen, nops, flavour):
         new_sub()
     budget = nops
     closed = False
+    left = []            # sids of subscribers that have left (their identity stays valid for a stale kick)
 
     def note_close():
         nonlocal budget, closed
@@ -173,6 +174,12 @@ def gen_history(rng, maxlen, minlen, nops, flavour):
             lines.append("leave %d" % ent[0])
             if rng.random() < 0.9:
                 live.remove(ent)
+                left.append(ent[0])
+                if rng.random() < 0.6:
+                    # late kick with the stale identity, then subscriptions that recycle the freed slot
+                    lines.append("kick %d" % ent[0])
+                    for _ in range(rng.randint(1, 2)):
+                        new_sub()
         elif r < 0.95:
             lines.append("close")
             note_close()
@@ -181,7 +188,12 @@ def gen_history(rng, maxlen, minlen, nops, flavour):
             alive = False
             note_close()
         elif r < 0.97:
-            lines.append("kick %d" % rng.randint(0, 14))     # possibly nobody / somebody already gone
+            if left and rng.random() < 0.7:
+                lines.append("kick %d" % rng.choice(left))   # stale identity
+                if rng.random() < 0.5:
+                    new_sub()
+            else:
+                lines.append("kick %d" % rng.randint(0, 14))     # possibly nobody / somebody already gone
         else:
             publish()
     # drain: let everybody read to the end so that end-of-stream timing is exercised
@@ -268,6 +280,43 @@ def exhaustive_reentrant():
     return cases
 
 
+def exhaustive_stale_kick():
+    """leave -> late kick with the identity of the subscriber that has left -> new subscriptions that recycle the freed
+    registration; the newcomer must behave like any fresh subscriber"""
+    cases = []
+    for m in "abr":
+        for m2 in "abr":
+            for mx in (0, 2):
+                for pre in range(4):          # what the leaver did: nothing / read one / was kicked / read one and was kicked
+                    for other in (None, "co", "sus"):      # a second live subscriber: none / parked coroutine / parked by hand
+                        for how in ("sub", "subat", "copy"):
+                            for nkick in (1, 2):
+                                lines = ["case 0 pub %d 1" % mx, "sub 0 %s" % m]
+                                v = 1
+                                if other:
+                                    lines += ["sub 1 a", "%s 1" % other]
+                                if pre in (1, 3):
+                                    lines += ["pub %d" % v, "poll 0"]
+                                    v += 1
+                                if pre in (2, 3):
+                                    lines.append("kick 0")
+                                lines.append("leave 0")
+                                lines += ["kick 0"] * nkick
+                                if how == "sub":
+                                    lines.append("sub 2 %s" % m2)
+                                elif how == "subat":
+                                    lines.append("subat 2 %s %d" % (m2, v - 1))
+                                else:
+                                    if not other:
+                                        continue
+                                    lines += ["pub %d" % v, "res 1" if other == "sus" else "poll 1", "copy 2 1"]
+                                    v += 1
+                                lines += ["pub %d" % v, "poll 2", "pub %d" % (v + 1), "co 2", "leave 2", "kick 2", "kick 0",
+                                          "sub 3 %s" % m2, "pub %d" % (v + 2), "poll 3", "poll 3", "end"]
+                                cases.append({"id": 0, "lines": lines})
+    return cases
+
+
 class PubSuite(Suite):
     name = "pub-steps"
     harness = HARNESS
@@ -285,6 +334,8 @@ class PubSuite(Suite):
             cases = rng.sample(cases, 700)
             reent = rng.sample(reent, 500)
         cases += reent
+        stale = exhaustive_stale_kick()
+        cases += rng.sample(stale, 400) if tier == "quick" else stale
         for i in range(n):
             if rng.random() < 0.2:
                 maxlen, minlen = 0, 1
@@ -308,7 +359,7 @@ class PubSuite(Suite):
         closed = False
         subs = {}
         cnt = {"values": 0, "parks": 0, "wakes": 0, "eof_closed": 0, "eof_kicked": 0, "eof_lag": 0, "eof_uncovered": 0,
-               "bad": 0, "window_ops": 0, "reentrant": 0}
+               "bad": 0, "window_ops": 0, "reentrant": 0, "stale_kicks": 0}
         in_window = {}       # sid -> ops seen since its rdy returned 0
 
         def fetched(s, txt, pos):
@@ -456,8 +507,15 @@ class PubSuite(Suite):
                         msgs.append("close-no-wake: %s left subscribers %s waiting" % (k, left))
                 if k in ("kick", "kickme"):
                     sid = int(w[1])
-                    if sid in was_parked and sid not in released:
+                    live_target = sid in subs and not subs[sid].gone
+                    if live_target and sid in was_parked and sid not in released:
                         msgs.append("kick-no-wake: kicked subscriber %d stays waiting" % sid)
+                    wrong = [x for x in released if x != sid or not live_target]
+                    if wrong:
+                        msgs.append("kick-wrong-target: kick of %d (%s) resumed subscribers %s"
+                                    % (sid, "live" if live_target else "stale/unknown identity", wrong))
+                    if not live_target:
+                        cnt["stale_kicks"] += 1
                 continue
             sid = int(w[1])
             pos = kv(head, "pos")
